@@ -207,10 +207,12 @@ func runC02(res *result) {
 		}
 	}
 	if !thorough {
-		// quick: every second field atom (all shapes still occur with at least one requiredness)
+		// quick: every field atom of a leaf type (all requiredness x default combinations), every
+		// second one of a container type (all shapes still occur with at least one requiredness)
 		var keep []idl.Atom
 		for i, a := range atoms {
-			if a.Class != "field" || i%2 == 0 {
+			leaf := a.Class == "field" && !strings.ContainsAny(a.Name, "<")
+			if a.Class != "field" || leaf || i%2 == 0 {
 				keep = append(keep, a)
 			}
 		}
